@@ -925,13 +925,72 @@ func xKind(s *sg.Spec) string {
 	kind := "?"
 	s.Walk(func(x *sg.Spec) {
 		if x.IsBlockish() && x.Name == "x" && kind == "?" {
-			kind = x.K
-			if x.K == sg.KList && x.Kids[0].LabelCount() > 0 {
-				kind = "list-with-label"
-			}
+			kind = kindName(x)
 		}
 	})
 	return kind
+}
+
+// kindName names a block-ish spec for classes: its kind, "list-with-label" for
+// a BlockListSpec with a BlockLabelSpec inside, and the number of label names
+// when there are several (one map level per label name is part of the
+// implied type).
+func kindName(x *sg.Spec) string {
+	kind := x.K
+	nl := len(x.Labels)
+	if x.K == sg.KList && len(x.Kids) > 0 && x.Kids[0].LabelCount() > 0 {
+		kind = "list-with-label"
+		nl = x.Kids[0].LabelCount()
+	}
+	if nl >= 2 {
+		kind += fmt.Sprintf("-%d-labels", nl)
+	}
+	return kind
+}
+
+// specAt: the block-ish spec that decodes the blocks found by following the
+// block types of path from the root body.
+func specAt(s *sg.Spec, path []string) *sg.Spec {
+	cur := s
+	var found *sg.Spec
+	for _, ty := range path {
+		if cur == nil {
+			return nil
+		}
+		v := sg.ViewOf(cur)
+		bu := v.BlockUse(ty)
+		if bu == nil {
+			return nil
+		}
+		found = bu.Spec
+		cur = nil
+		if found.K != sg.KAttrs && len(found.Kids) > 0 {
+			cur = found.Kids[0]
+		}
+	}
+	return found
+}
+
+// hasCountBounds: some BlockListSpec / BlockTupleSpec / BlockSetSpec of the tree has MinItems or MaxItems.
+func hasCountBounds(s *sg.Spec) bool {
+	has := false
+	s.Walk(func(x *sg.Spec) {
+		if (x.K == sg.KList || x.K == sg.KSet || x.K == sg.KBTuple) && (x.Min != 0 || x.Max != 0) {
+			has = true
+		}
+	})
+	return has
+}
+
+// withoutCountBounds: the same spec tree with every MinItems / MaxItems removed.
+func withoutCountBounds(s *sg.Spec) *sg.Spec {
+	c := s.Clone()
+	c.Walk(func(x *sg.Spec) {
+		if x.K == sg.KList || x.K == sg.KSet || x.K == sg.KBTuple {
+			x.Min, x.Max = 0, 0
+		}
+	})
+	return c
 }
 
 func shapeOf(d Data) shape {
